@@ -42,6 +42,10 @@ func main() {
 		fmt.Fprintln(os.Stderr, "unknown check", os.Args[1])
 		os.Exit(2)
 	}
+	if os.Args[2] == "--sub" && len(os.Args) >= 4 {
+		rt.SubRun = true
+		os.Exit(f(rt.Tier(os.Args[3])))
+	}
 	if os.Args[2] == "--replay" && len(os.Args) >= 4 {
 		rt.Replay = rt.LoadReplay(os.Args[3])
 		os.Exit(f(rt.Replay.Tier))
